@@ -122,6 +122,7 @@ func c17Validity(c *core.Ctx, s string) (validPattern bool) {
 			c.Violation("C17/indexwildcard:"+c17Shape(s), fmt.Sprintf("Pattern(%q).IndexWildcard()=%d, reference %d", s, g, w), map[string]interface{}{"pattern": s})
 		}
 		c17Registration(c, s)
+		c17TagMaps(c, s)
 	} else if pv == 0 && s != "" {
 		// invalid patterns must be rejected at registration
 		m := res.NewMux("")
@@ -234,6 +235,53 @@ func c17Registration(c *core.Ctx, s string) {
 		if !dup && pn != nil {
 			w["panic"] = fmt.Sprint(pn)
 			c.Violation("C17/register-rejects-valid:after-earlier-registrations", fmt.Sprintf("Handle(%q) panicked (%v) on a Mux that already held %q although the pattern is valid and distinct from them", target, pn, shadows), w)
+			return
+		}
+	}
+}
+
+// c17TagValues are what a tag map may hold for a tag: any string, the empty one included.
+var c17TagValues = []string{"", "v", "a.b", "$y", ">", "*"}
+
+// c17TagMaps: tag replacement with every tag map over a few values - present entries are
+// substituted whatever their value, absent ones left alone; the single-tag form agrees.
+func c17TagMaps(c *core.Ctx, p string) {
+	var tags []string
+	seen := map[string]bool{}
+	for _, t := range ref.Tokens(p) {
+		if ref.ClassifyToken(t) == ref.TokTag && !seen[t[1:]] {
+			seen[t[1:]] = true
+			tags = append(tags, t[1:])
+		}
+	}
+	if len(tags) == 0 || len(tags) > 3 {
+		return
+	}
+	n := len(c17TagValues) + 1 // the last choice: the tag is absent from the map
+	total := 1
+	for range tags {
+		total *= n
+	}
+	for code := 0; code < total; code++ {
+		m := map[string]string{"unrelated": "x"}
+		x := code
+		for _, t := range tags {
+			if k := x % n; k < len(c17TagValues) {
+				m[t] = c17TagValues[k]
+			}
+			x /= n
+		}
+		c.Obs("tag_maps", 1)
+		got, want := string(res.Pattern(p).ReplaceTags(m)), ref.ReplaceTags(p, m)
+		if got != want {
+			c.Violation("C17/replacetags:tag-map:"+c17Shape(p), fmt.Sprintf("Pattern(%q).ReplaceTags(%v)=%q, reference %q", p, m, got, want), map[string]interface{}{"pattern": p, "tags": m, "got": got, "want": want})
+			return
+		}
+	}
+	for _, v := range c17TagValues {
+		got, want := string(res.Pattern(p).ReplaceTag(tags[0], v)), ref.ReplaceTags(p, map[string]string{tags[0]: v})
+		if got != want {
+			c.Violation("C17/replacetag:tag-map:"+c17Shape(p), fmt.Sprintf("Pattern(%q).ReplaceTag(%q,%q)=%q, reference %q", p, tags[0], v, got, want), map[string]interface{}{"pattern": p, "tag": tags[0], "value": v})
 			return
 		}
 	}
